@@ -20,7 +20,8 @@ is the image of the input range under T, derived here from the formula and
 never read from the library.
 
 Tolerances (floating point error of evaluating the documented formula in double
-precision, K = 32 ulp-units of slack for vectorised libm kernels):
+precision, K = 8 ulp-units of slack for vectorised libm kernels; observed
+errors stay below 10 % of these budgets):
 
     forward   |dy| <= K eps (2 (p+1)/|mu| + p |ln u|),   p = u**mu
               (cancellation in u**mu - 1, division by mu, error of the exponent)
@@ -42,7 +43,7 @@ M = mpmath.mp.clone()
 M.dps = 50
 
 EPS = 2.0**-52
-K = 32.0
+K = 8.0
 SWITCH = 1e-8
 
 FAMILIES = ["LogNormal", "BoxCox", "BoxCoxShift", "YeoJohnson", "Modulus", "Manly"]
